@@ -15,13 +15,13 @@ MUTATORS = {'push', 'pop', 'insert', 'remove', '__setitem__', '__setitem_with_op
 #  L list of symbolic ints (length 0..3)   N nested list [[a],[b, c]]   D dict {'p': a, 'q': [b]}   S short concrete str
 #  l n d: the same shapes with concrete elements (for builtins that format their argument: formatting realises symbolic ints)
 #  I symbolic int   Z small concrete int   F1 one-arg function   F2 two-arg function   K key function   B symbolic bool
-#  U None   E Decimal   H host mapping with __missing__ (collections.defaultdict)   X a key that is absent
+#  J host dict with int / tuple keys   U None   E Decimal   H host mapping with __missing__ (collections.defaultdict)   X a key that is absent
 SHAPES = {
-    'len': ['L', 'D', 'N', 'H'], 'int': ['I', 'E'], 'float': ['Z'], 'str': ['l', 'd', 'n'], 'dict': ['', 'D'], 'list': ['LD', 'N'],
+    'len': ['L', 'D', 'N', 'H', 'J'], 'int': ['I', 'E'], 'float': ['Z'], 'str': ['l', 'd', 'n'], 'dict': ['', 'D'], 'list': ['LD', 'N'],
     'startswith': ['SS', 'LS'], 'endswith': ['SS'], 'lower': ['S', 'L'], 'upper': ['S'], 'strip': ['S'], 'replace': ['SSS', 'LSS'],
     'match': ['LS', 'DS'], 'match_groups': ['LS'], 'match_all': ['LS', 'DS'],
-    'pretty': ['d', 'l', 'n', 'E', 'dS', 'lS'], 'keys': ['D', 'H'], 'values': ['D', 'H'], 'items': ['D', 'H'], 'sum': ['L', 'N', 'D'],
-    'get': ['DS', 'DSL', 'DSN', 'HS', 'HX', 'HXL'], '__getitem__': ['LZ', 'DS', 'NZ', 'LI'],
+    'pretty': ['d', 'l', 'n', 'E', 'dS', 'lS'], 'keys': ['D', 'H', 'J'], 'values': ['D', 'H', 'J'], 'items': ['D', 'H', 'J'], 'sum': ['L', 'N', 'D'],
+    'get': ['DS', 'DSL', 'DSN', 'HS', 'HX', 'HXL', 'JZ', 'JS', 'JZL'], '__getitem__': ['LZ', 'DS', 'NZ', 'LI', 'JZ', 'JS'],
     'map': ['LF1', 'NF1', 'DF2', 'SF1', 'HF2'], 'filter': ['LF1', 'NF1'], 'reduce': ['LF2', 'NF2'], 'join': ['l', 'lS', 'n'], 'split': ['S', 'SS', 'LS'],
     'round': ['Z', 'E', 'EZ'], 'floor': ['Z', 'E'], 'ceil': ['Z', 'E'], 'abs': ['I', 'E'], 'min': ['L', 'II', 'N'], 'max': ['L', 'II', 'N'],
     'rand': ['', 'L', 'N', 'II'],
@@ -61,6 +61,8 @@ def _args(shape, a, b, c, n, flag):
             out.append(collections.defaultdict(list, {'p': a, 'q': [b]}))      # host mapping with __missing__
         elif k == 'X':
             out.append('absent')
+        elif k == 'J':
+            out.append({1: a, 2: [b], (3, 4): 'c'})      # host dict with non-string keys
         elif k == 'S':
             out.append('a,b')
         elif k == 'I':
@@ -113,6 +115,8 @@ PIPES = [
     "sorted(d, (k, v) => k, True)", "l | reduce((x, y) => x + y) if l else zero", "[l | min, l | max] if l else zero",
     "nn | sorted(v => len(v)) | reversed", "index_of(l, zero)", "get(d, 'q') | reversed", "values(d) | len", "pretty(cd) | len",
     "str(cn) | len", "rand(l) if l else zero", "d | map((k, v) => k) | sorted",
+    "get(data, 'rows') | len", "data['rows'] | len", "table[one] | len", "max(l, big) | len", "[big, big] | reduce((p, q) => q) | len",
+    "get(jd, one)", "jd[one]", "get(jd, 'x', zero)",
 ]
 if isinstance(hlib.PARAM, dict) and "pipe" in hlib.PARAM:
     prewarm(PIPES[hlib.PARAM["pipe"]])
@@ -130,13 +134,18 @@ def pipeline(a: int, b: int, c: int, n: int, d1: int, d2: int, d3: int) -> None:
     nn = [[a], [b, c]]
     d = {'p': a, 'q': [b, c]}
     cn, cd = [[3], [1, 2]], {'p': 3, 'q': [1, 2]}
+    big = list(range(10025))
+    data, table, jd = {'rows': big}, [[1], big], {1: 'one', 2: [2]}
     snap = _copy.deepcopy((l, nn, d, cn, cd))
+    big_len, jd_keys = len(big), list(jd)
     saved = functions.random
     functions.random = RandStub([d1, d2, d3], 0.5)
     try:
-        out = run_eval(PIPES[hlib.PARAM["pipe"]], {'l': l, 'nn': nn, 'd': d, 'cn': cn, 'cd': cd, 'zero': 0}, 1000)
+        out = run_eval(PIPES[hlib.PARAM["pipe"]], {'l': l, 'nn': nn, 'd': d, 'cn': cn, 'cd': cd, 'zero': 0, 'one': 1, 'big': big, 'data': data, 'table': table, 'jd': jd}, 1000)
     finally:
         functions.random = saved
     assert (l, nn, d, cn, cd) == snap, "pipeline of non-mutating builtins modified a host object"
-    assert out[0] == 'ok', "pipeline failed: %s" % (out[1].__name__ if out[0] == 'err' else '')
+    assert len(big) == big_len and data['rows'] is big and table[1] is big, "a host list longer than the cap was modified by a non-mutating builtin"
+    assert list(jd) == jd_keys, "a host dict with non-string keys was re-keyed by a read"
+    assert out[0] == 'ok' or hlib.PARAM["pipe"] >= 25, "pipeline failed: %s" % (out[1].__name__ if out[0] == 'err' else '')
     hlib.done()
